@@ -15,6 +15,8 @@ import (
 	"reflect"
 	"sort"
 	"strings"
+	"sync"
+	"sync/atomic"
 	"syscall"
 	"testing"
 	"time"
@@ -200,6 +202,142 @@ func c09Program(seed int64, n int, withReopen bool) (ops []c09Op, startProto boo
 		}
 	}
 	return ops, startProto
+}
+
+// c09LongLog builds a program that appends 150-450 consecutive entries and then
+// deletes long ranges of them in single DeleteRange calls.
+func c09LongLog(seed int64) []c09Op {
+	rng := rand.New(rand.NewSource(seed ^ 0x5eed))
+	var ops []c09Op
+	n := 150 + rng.Intn(300)
+	next := uint64(1000)
+	for done := 0; done < n; {
+		cnt := rng.Intn(64) + 1
+		op := c09Op{Kind: "storelogs"}
+		for j := 0; j < cnt && done < n; j++ {
+			op.Logs = append(op.Logs, c09Entry(rng, next, rng.Intn(4) == 0))
+			next++
+			done++
+		}
+		ops = append(ops, op)
+	}
+	last := next - 1
+	cut := 1000 + uint64(rng.Intn(n-110)) + 105
+	ops = append(ops, c09Op{Kind: "first"}, c09Op{Kind: "delrange", Min: 1000, Max: cut}, c09Op{Kind: "first"}, c09Op{Kind: "getlog", Index: cut}, c09Op{Kind: "getlog", Index: 1000 + 101}, c09Op{Kind: "getlog", Index: 1000 + 102})
+	if last-cut > 120 && rng.Intn(2) == 0 {
+		ops = append(ops, c09Op{Kind: "delrange", Min: last - 110, Max: last}, c09Op{Kind: "last"})
+	}
+	if rng.Intn(2) == 0 {
+		ops = append(ops, c09Op{Kind: "delrange", Min: 0, Max: ^uint64(0) - 1}, c09Op{Kind: "first"}, c09Op{Kind: "last"})
+	}
+	return ops
+}
+
+// TestVerifC09Concurrent: raft reads the log from its replication goroutines while the
+// main loop appends and compacts. Readers compare every entry of a region that is never
+// touched with what was stored; the binary runs under the race detector.
+func TestVerifC09Concurrent(t *testing.T) {
+	rep := verifrep.Open()
+	defer rep.Close()
+	base := verifrep.Seed()
+	rounds := verifrep.Cases(4)
+	for r := 0; r < rounds; r++ {
+		seed := base*7919 + int64(r)
+		rng := rand.New(rand.NewSource(seed))
+		d := filepath.Join(verifrep.Dir(), fmt.Sprintf("conc%d", r))
+		pbMode := r%2 == 0
+		s, err := NewLevelDBStore(d, false, pbMode)
+		if err != nil {
+			t.Fatal(err)
+		}
+		stable := map[uint64]c09Log{}
+		var batch []*raft.Log
+		for i := uint64(500); i < 800; i++ {
+			l := c09Entry(rng, i, !pbMode)
+			stable[i] = l
+			batch = append(batch, l.raft())
+		}
+		for i := uint64(1); i < 200; i++ {
+			batch = append(batch, c09Entry(rng, i, !pbMode).raft())
+		}
+		if err := s.StoreLogs(batch); err != nil {
+			t.Fatal(err)
+		}
+		var wg sync.WaitGroup
+		var bad atomic.Value
+		var reads int64
+		stop := make(chan struct{})
+		for g := 0; g < 8; g++ {
+			wg.Add(1)
+			go func(g int) {
+				defer wg.Done()
+				defer func() {
+					if p := recover(); p != nil {
+						bad.Store(fmt.Sprintf("reader panicked: %v", p))
+					}
+				}()
+				lr := rand.New(rand.NewSource(seed + int64(g)))
+				for {
+					select {
+					case <-stop:
+						return
+					default:
+					}
+					idx := uint64(500 + lr.Intn(300))
+					var got raft.Log
+					if err := s.GetLog(idx, &got); err != nil {
+						bad.Store(fmt.Sprintf("GetLog(%d) under concurrent readers and a writer: %v", idx, err))
+						return
+					}
+					if df := compareLog(stable[idx], &got, pbMode); df != "" {
+						bad.Store(fmt.Sprintf("GetLog(%d) under concurrent readers and a writer: %s", idx, df))
+						return
+					}
+					atomic.AddInt64(&reads, 1)
+					if lr.Intn(4) == 0 {
+						s.FirstIndex()
+						s.LastIndex()
+					}
+				}
+			}(g)
+		}
+		// the writer: appends beyond the stable region, compacts below it
+		next := uint64(800)
+		low := uint64(1)
+		for k := 0; k < 300 && bad.Load() == nil; k++ {
+			var logs []*raft.Log
+			for j := 0; j < rng.Intn(4)+1; j++ {
+				logs = append(logs, c09Entry(rng, next, !pbMode).raft())
+				next++
+			}
+			if err := s.StoreLogs(logs); err != nil {
+				bad.Store("StoreLogs: " + err.Error())
+			}
+			if k%10 == 9 && low < 190 {
+				if err := s.DeleteRange(low, low+9); err != nil {
+					bad.Store("DeleteRange: " + err.Error())
+				}
+				low += 10
+			}
+			if k%25 == 0 {
+				s.SetUint64([]byte("CurrentTerm"), uint64(k))
+			}
+		}
+		close(stop)
+		wg.Wait()
+		if b := bad.Load(); b != nil {
+			prop := os.Getenv("VERIF_PROP")
+			if prop != "C18" {
+				prop = "C09"
+			}
+			rep.Violation(prop, "concurrent:getlog", fmt.Sprint(b), map[string]interface{}{"seed": seed, "protobuf": pbMode})
+		}
+		rep.Cases(int(atomic.LoadInt64(&reads)))
+		rep.Obs("concurrent.reads", int(atomic.LoadInt64(&reads)))
+		rep.Case(fmt.Sprintf("concurrent|proto=%v", pbMode))
+		s.Close()
+		os.RemoveAll(d)
+	}
 }
 
 // ---- model
@@ -445,6 +583,11 @@ func TestVerifC09(t *testing.T) {
 		// the message offset main() configures (its default) matters for the JSON->protobuf conversion
 		robust.MessageOffset = []uint64{0, 4648398125000000000, 1500000000000000000}[k%3]
 		ops, startProto := c09Program(seed, 40, true)
+		if k%5 == 4 {
+			// a long log, then what raft does to it: compaction of a long prefix after a
+			// snapshot, truncation of a long suffix after a conflict
+			ops = append(c09LongLog(seed), ops...)
+		}
 		d := filepath.Join(dir, fmt.Sprintf("db%d", k))
 		s, err := NewLevelDBStore(d, false, startProto)
 		if err != nil {
